@@ -33,7 +33,8 @@ func (reg *ResourceRegistry) ScanStorage(root string) error {
 		if err != nil {
 			return err
 		}
-		if !strings.HasPrefix(root, reg.storageDir.Path) {
+		if root != reg.storageDir.Path &&
+			!strings.HasPrefix(root, reg.storageDir.Path+string(filepath.Separator)) {
 			return errors.New("supplied scan root path not within storage")
 		}
 	}
